@@ -156,3 +156,42 @@ pub fn first_diff(a: &[String], b: &[String]) -> String {
     }
     format!("lengths differ: {} vs {}", a.len(), b.len())
 }
+
+/// Exercises a differently configured instance (other address prefix / block): codes, contracts
+/// (classic and salted addresses), bank, failing calls. Results are ignored.
+pub fn run_foreign_instance(seed: u64) {
+    let mut scratch = Report::new();
+    let mut f = World::new_foreign("juno");
+    let mut rng = Rng::new(seed ^ 0x5EED);
+    let users = f.users.clone();
+    for op in crate::engines::e1_run::setup_ops(&users, &mut rng) {
+        let _ = f.step(&op, &mut scratch);
+    }
+    let mut tagbase = 900_000u32;
+    for _ in 0..6 {
+        tagbase += 1000;
+        let users = f.users.clone();
+        let op = {
+            let mut g = Gen::new(&mut rng, Profile::base(), users, tagbase);
+            g.top(&f.model)
+        };
+        let _ = f.step(&op, &mut scratch);
+    }
+    let _ = crate::puppet::take_trace();
+}
+
+/// The program replayed on a fresh thread (fresh thread-locals) in which a differently configured
+/// instance has been used first.
+pub fn chain_after_foreign(case: &ChainCase, seed: u64) -> Vec<String> {
+    let case = case.clone();
+    std::thread::Builder::new()
+        .stack_size(256 << 20)
+        .spawn(move || {
+            crate::core::install_quiet_panic_hook();
+            run_foreign_instance(seed);
+            chain_replay(&case)
+        })
+        .expect("spawn")
+        .join()
+        .unwrap_or_else(|_| vec!["<thread panicked>".to_string()])
+}
